@@ -1,7 +1,7 @@
 import sys, time
 from hlib import *
 import explore, props
-import mirdump; mirdump.dump("liwe"); mirdump.dump("iwes", deps=("liwe",)); prog = program(mir_files=("/verif/.cache/liwe.mir","/verif/.cache/iwes.mir"), crates=("crates/liwe","crates/iwes"))
+import mirdump, os; f1 = mirdump.dump("liwe")[0]; f2 = mirdump.dump("iwes", deps=("liwe",))[0]; prog = program(mir_files=(f1, f2), crates=("crates/liwe","crates/iwes"), repo=os.environ.get("VERIF_REPO", "/repo"))
 hz = eval('props.' + sys.argv[1])(prog, sys.argv[2] if len(sys.argv)>2 else 'quick')
 S = explore.explore(hz, workers=16, time_limit=int(sys.argv[3]) if len(sys.argv)>3 else 900)
 print('paths', S.paths, S.by_status, 'wall %.1f' % S.wall, 'steps', S.steps, 'queries', S.queries, 'solver_s %.1f' % S.solver_s, 'incomplete', S.incomplete)
